@@ -284,6 +284,25 @@ theorem sat_forM_pre (J : List Nat → St α → Prop) (f : Nat → M α Unit) (
     have := ih (fun pre y s hy => hf pre y s (List.mem_cons_of_mem _ hy)) (pre ++ [x]) s1 h1
     simpa using this
 
+/-- `filterM` with a prefix-indexed invariant -/
+theorem sat_filterM_pre (J : List Nat → St α → Prop) (p : Nat → M α Bool) (q : Nat → Bool) (l : List Nat)
+    (hp : ∀ pre i s, i ∈ l → J pre s → Sat (p i) s (fun s' b => J (pre ++ [i]) s' ∧ b = q i))
+    (pre : List Nat) (s : St α) (hs : J pre s) :
+    Sat (M.filterM p l) s (fun s' r => J (pre ++ l) s' ∧ r = l.filter q) := by
+  induction l generalizing pre s with
+  | nil => exact sat_pure ⟨by simpa using hs, rfl⟩
+  | cons i is ih =>
+    unfold M.filterM
+    apply sat_bind
+    apply sat_mono (hp pre i s List.mem_cons_self hs)
+    rintro s1 b ⟨h1, rfl⟩
+    apply sat_bind
+    apply sat_mono (ih (fun pre j s hj => hp pre j s (List.mem_cons_of_mem _ hj)) (pre ++ [i]) s1 h1)
+    rintro s2 r ⟨h2, rfl⟩
+    apply sat_pure
+    refine ⟨by simpa using h2, ?_⟩
+    rw [List.filter_cons]
+
 /-- `forM` with a prefix-indexed invariant; the step knows where in the list it is -/
 theorem sat_forM_split (J : List Nat → St α → Prop) (f : Nat → M α Unit) (l : List Nat)
     (hf : ∀ pre x post s, l = pre ++ x :: post → J pre s → Sat (f x) s (fun s' _ => J (pre ++ [x]) s'))
